@@ -672,7 +672,7 @@ def run_case(case):
         if k not in seen:
             seen.add(k)
             uniq.append(f)
-    return uniq, dict(stats), engine.plan_digest({"t1": t1, "modes": imp["modes"]})
+    return uniq, dict(stats), engine.plan_digest({"t1": t1, "modes": imp["modes"], "sched": imp.get("sched"), "schedule": imp.get("schedule"), "read_faults": imp.get("read_faults")})
 
 
 def _canon_bp(recs):
